@@ -72,6 +72,7 @@ var contractSMTFns = map[string]smtFn{
 	"rv_index":       {[]string{"RV", "Int"}, "RV", nil},
 	"rv_mapval":      {[]string{"RV", "Iface"}, "RV", nil},
 	"rv_key":         {[]string{"RV", "Int"}, "RV", nil},
+	"rv_entryval":    {[]string{"RV", "Int"}, "RV", nil},
 	"t_numin":        {[]string{"TypeTag"}, "Int", types.Typ[types.Int]},
 	"t_numout":       {[]string{"TypeTag"}, "Int", types.Typ[types.Int]},
 	"t_in":           {[]string{"TypeTag", "Int"}, "TypeTag", nil},
@@ -147,6 +148,16 @@ func (fr *Frame) eval(e *Expr, env *Env, st *State, old *State) *Val {
 				return sv(fr.u.ghostOf(st, v.Heap), v.Srt)
 			}
 			return v
+		}
+		// `for it.Next()` over a reflect map iterator: idx is the position of the last entry handled (-1 before the
+		// first), read from the iterator's ghost position in the state at hand
+		if e.name == "idx" && env.at != nil {
+			if itv := fr.mapIterOfLoop(env.at); itv != nil {
+				if iv, ok := fr.vals[itv]; ok && iv.K == vTerm {
+					u.ghostSort["miter_pos"] = "(Array Ref Int)"
+					return term(fmt.Sprintf("(select %s %s)", u.ghostOf(st, "miter_pos"), iv.T), types.Typ[types.Int])
+				}
+			}
 		}
 		cell := env.cells[e.name]
 		if cell == nil && env.cells == nil {
@@ -606,6 +617,11 @@ func (fr *Frame) evalCall(e *Expr, env *Env, st *State, old *State) *Val {
 			return term(app(u.fn("cbor_strictdec", []string{"Ref"}, "Bool"), x.T), B)
 		}
 		return term(app(u.fn("cbor_strictmode", []string{"Iface"}, "Bool"), fr.asTerm(x, st)), B)
+	case "iterpos":
+		// iterpos(it): position of a *reflect.MapIter (-1 before the first Next)
+		x := arg(0)
+		u.ghostSort["miter_pos"] = "(Array Ref Int)"
+		return term(fmt.Sprintf("(select %s %s)", u.ghostOf(st, "miter_pos"), x.T), types.Typ[types.Int])
 	case "closed":
 		// closed(ch): the channel has been closed
 		x := arg(0)
@@ -1230,4 +1246,26 @@ func (fr *Frame) countingPhis(h *ssa.BasicBlock) []*ssa.Phi {
 		}
 	}
 	return counters
+}
+
+// mapIterOfLoop: the loop with header h is `for it.Next() { ... }` over a *reflect.MapIter that was created before
+// the loop; returns the iterator value
+func (fr *Frame) mapIterOfLoop(h *ssa.BasicBlock) ssa.Value {
+	if h == nil {
+		return nil
+	}
+	for _, in := range h.Instrs {
+		c, ok := in.(*ssa.Call)
+		if !ok {
+			continue
+		}
+		callee := c.Call.StaticCallee()
+		if callee == nil || callee.String() != "(*reflect.MapIter).Next" || len(c.Call.Args) == 0 {
+			continue
+		}
+		if definedOutside(c.Call.Args[0], fr.loopBody[h]) {
+			return c.Call.Args[0]
+		}
+	}
+	return nil
 }
